@@ -145,13 +145,13 @@ class time_limit:
         import signal, time
         self.armed = False
         try:
-            self.old = signal.signal(signal.SIGALRM, self._on_alarm)
+            self.old = signal.signal(signal.SIGVTALRM, self._on_alarm)
         except ValueError:
             return self
-        self.armed, self.t0 = True, time.time()
+        self.armed, self.t0 = True, time.process_time()
         if time_limit.fired >= 3:      # established: keep the run short (replays start at 0)
             self.seconds = min(self.seconds, 1.0)
-        self.left, _ = signal.setitimer(signal.ITIMER_REAL, self.seconds)
+        self.left, _ = signal.setitimer(signal.ITIMER_VIRTUAL, self.seconds)
         return self
 
     fired = 0
@@ -163,10 +163,11 @@ class time_limit:
     def __exit__(self, *exc):
         import signal, time
         if self.armed:
-            signal.setitimer(signal.ITIMER_REAL, 0)
-            signal.signal(signal.SIGALRM, self.old)
+            _, _ = signal.setitimer(signal.ITIMER_VIRTUAL, 0)
+            signal.signal(signal.SIGVTALRM, self.old)
             if self.left:
-                signal.setitimer(signal.ITIMER_REAL, max(0.05, self.left - (time.time() - self.t0)))
+                used = time.process_time() - self.t0
+                signal.setitimer(signal.ITIMER_VIRTUAL, max(0.05, self.left - used))
         return False
 
 
@@ -179,22 +180,32 @@ def safe(pid, fn):
     killing the exploration.  On the unchanged tree no case may crash."""
     limit = float(os.environ.get("VERIF_CASE_TIMEOUT", "120"))
 
+    fired = [False]
+
     def on_alarm(signum, frame):
         _TIMEOUTS_SEEN[0] += 1
-        raise CaseTimeout("no result within %.0f s (non-termination?)" % limit)
+        fired[0] = True
+        raise CaseTimeout("no result within %.0f s of CPU time (non-termination?)" % limit)
 
     def wrapped(params):
         import signal
         old = None
+        fired[0] = False
         try:
-            old = signal.signal(signal.SIGALRM, on_alarm)
+            # CPU time of this process, not wall-clock time: the budget does not depend on how busy the machine is
+            old = signal.signal(signal.SIGVTALRM, on_alarm)
             # once cases of this process have timed out the violation is established: later cases
             # get a shorter budget so that the run still ends (the replay uses the full budget)
-            signal.setitimer(signal.ITIMER_REAL, limit if _TIMEOUTS_SEEN[0] < 2 else min(limit, 15.0))
+            signal.setitimer(signal.ITIMER_VIRTUAL, limit if _TIMEOUTS_SEEN[0] < 2 else min(limit, 30.0))
         except ValueError:      # not in the main thread of the process: no watchdog
             old = None
         try:
-            return fn(params)
+            res = fn(params)
+            if fired[0]:
+                # the alarm went off inside library code that swallowed the exception: whatever
+                # was computed afterwards is not trustworthy -- report the timeout itself
+                raise CaseTimeout("no result within %.0f s of CPU time (the interruption was swallowed by the code under test)" % limit)
+            return res
         except Exception as e:  # noqa
             tb = traceback.extract_tb(e.__traceback__)
             where = "%s:%d" % (os.path.basename(tb[-1].filename), tb[-1].lineno) if tb else "?"
@@ -203,8 +214,14 @@ def safe(pid, fn):
                                                          json.dumps(jsonable(params))[:300]))]
         finally:
             if old is not None:
-                signal.setitimer(signal.ITIMER_REAL, 0)
-                signal.signal(signal.SIGALRM, old)
+                signal.setitimer(signal.ITIMER_VIRTUAL, 0)
+                signal.signal(signal.SIGVTALRM, old)
+            if fired[0]:
+                try:        # an interrupted sympy computation may have left partial results in its caches
+                    from sympy.core.cache import clear_cache
+                    clear_cache()
+                except Exception:  # noqa
+                    pass
     wrapped.__name__ = getattr(fn, "__name__", "case")
     return wrapped
 
